@@ -554,3 +554,22 @@ Theorem C03_fragment_nested_emphasis_instance :
   wf_b (FOne 83 $"ay " (INest 42 0 ($"one") [] ($"four")) []) = false.
 Proof. vm_compute. repeat split; reflexivity. Qed.
 Print Assumptions C03_fragment_nested_emphasis_instance.
+
+(* an inline link WITH A TITLE (Proofs/TitleLink.v): pre [w](dest "title") post - the destination ended by the space, match_link_title
+   skipping the white space and scanning the title up to the closing double quote, the closing parenthesis after it; the Link holds
+   destination and title; HTML with the title attribute through the renderer's own filler; also an inline element of leaf FOne *)
+From Mistletoe Require Import Proofs.TitleLink.
+Theorem C03_titled_link_in_sentence : forall types fn pre w dest title post,
+  ref_spans types = true -> tlink_ok pre w dest title post = true ->
+  Inline.tokenize_inner types fn (pre ++ [91%Z] ++ w ++ [93%Z; 40%Z] ++ dest ++ [32%Z; 34%Z] ++ title ++ [34%Z; 41%Z] ++ post) =
+  EmphSentence.raw_if pre ++ [tlink_of w dest title] ++ EmphSentence.raw_if post.
+Proof. exact titled_link_in_sentence. Qed.
+Print Assumptions C03_titled_link_in_sentence.
+
+Theorem C03_titled_link_instance :
+  (tlink_ok ($"see ") ($"the site") ($"http://ex.am/a?b=c") ($"Its title, here") ($", ok") = true) /\
+  (tlink_ok [] ($"x") ($"/y") ([34%Z]) [] = false) /\ (tlink_ok [] ($"x") ($"/y") ($"a&b") [] = false) /\
+  (let t := FQuote [FOne 115 $"ee " (ILinkT $"the site" $"/s" $"Its title") $"."] in
+   wf_b t = true /\ text_of (spell t) = [ $"> see [the site](/s " ++ [34%Z] ++ $"Its title" ++ [34%Z] ++ $")." ++ [10%Z] ]).
+Proof. vm_compute. repeat split; reflexivity. Qed.
+Print Assumptions C03_titled_link_instance.
